@@ -11,6 +11,8 @@ JInv == /\ Chk("C05_Stream", C05_Stream(Recs[i]))
         /\ Chk("C05_Count", C05_Count(Recs[i]))
         /\ Chk("C05_Closed", C05_Closed(Recs[i]))
         /\ Chk("C05_End", C05_End(Recs[i]))
+        /\ Chk("C05_Returns", C05_Returns(Recs[i]))
+        /\ Chk("C17_Returns", C17_Returns(Recs[i]))
         /\ Chk("C05_Call", C05_Call(Recs[i]))
         /\ Chk("C17_Live", C17_Live(Recs[i]))
         /\ Chk("C17_Equivalent", C17_Equivalent(Recs[i]))
